@@ -299,7 +299,7 @@ class CopyOverlay(CopySuite):
 class CopyFilter(CopySuite):
     """C16"""
     name = "copyfilter"
-    rule = ("trees x include/exclude lists from the pattern fragment (as C10) through copy.Copy into empty and populated destinations; the copied set must be "
+    rule = ("trees (30% with hard-link groups, some with the first name filtered out) x include/exclude lists from the pattern fragment (as C10) through copy.Copy into empty and populated destinations; the copied set must be "
             "the filtered walk's set plus needed ancestors, no extra directories; non-trivial = non-empty pattern list, distinct")
 
     def gen(self, rng, tier):
@@ -307,12 +307,21 @@ class CopyFilter(CopySuite):
         n = {"quick": 400, "thorough": 15000, "search": 200}[tier]
         ops = []
         while len(ops) < n:
-            tree = gen.disk_tree(rng, rng.choice([6, 15, 30]), 4, types=("dir", "file", "symlink"), xattrs=rng.random() < 0.3, file_sizes=(0, 3))
+            links = rng.random() < 0.3
+            tree = gen.disk_tree(rng, rng.choice([6, 15, 30]), 4, types=("dir", "file", "symlink", "hardlink", "hardlink") if links else ("dir", "file", "symlink"),
+                                 xattrs=rng.random() < 0.3, file_sizes=(0, 3))
             paths = [bytes.fromhex(e["p"]) for e in tree]
             if not paths or not all(filt.fragment_ok([p]) for p in paths):
                 continue
             a = {"src": hx(b"/"), "dst": hx(rng.choice([b"/", b"/out"])), "cdc": True}
             r = rng.random()
+            hl = [e for e in tree if e["t"] == "hardlink"]
+            if hl and rng.random() < 0.5:
+                # the filter rejects the first name of a hard-link group and selects a later one
+                a["exclude"] = [rng.choice(hl)["ln"]]
+                dst = [] if rng.random() < 0.7 else [e for e in gen.mutate_disk_tree(rng, tree, 2) if e["t"] != "hardlink"]
+                ops.append(self.mk(tree, dst, a))
+                continue
             pl = (lambda neg_p: filt.nested_list(rng, paths)) if rng.random() < 0.25 else (lambda neg_p: filt.pattern_list(rng, paths, neg_p))
             if r < 0.45:
                 a["include"] = [hx(p) for p in pl(0.3)]
